@@ -16,6 +16,18 @@ fn sharder(n: u16, msb: u8) -> Sharder {
 
 fn run_case(case: &str) -> String {
     let f: Vec<&str> = case.split_whitespace().collect();
+    // any line that is not a well-formed case (a replay file may contain anything) gets one answer line
+    let hexok = |s: &str| !s.is_empty() && s.len() <= 16 && s.chars().all(|c| c.is_ascii_hexdigit());
+    let wellformed = match f.first().copied() {
+        Some("S") => f.len() == 4 && hexok(f[1]) && f[1] != "0" && hexok(f[2]) && hexok(f[3].strip_prefix('-').unwrap_or(f[3])),
+        Some("P") => f.len() == 3 && hexok(f[1]) && hexok(f[2]),
+        Some("I") | Some("D") => f.len() == 5 && f[1..].iter().all(|x| hexok(x)),
+        Some("R") => f.len() == 4,
+        _ => false,
+    };
+    if !wellformed {
+        return "error unknown-case".into();
+    }
     let h = |s: &str| u64::from_str_radix(s, 16).unwrap();
     match f[0] {
         "S" => {
@@ -184,7 +196,8 @@ fn main() {
                 e2e::replay_case(&c, &mut out);
                 continue;
             }
-            let o = run_case(&c);
+            // a replayed line may be anything (n = 0, lo > hi, odd hex ...): exactly one answer line, never a crash
+            let o = std::panic::catch_unwind(std::panic::AssertUnwindSafe(|| run_case(&c))).unwrap_or_else(|_| "error unknown-case".into());
             out.case(&c, &o);
         }
         out.finish();
